@@ -169,7 +169,7 @@ theorem lemma_specVmdk_safety_iff (s : Bytes) : (specVmdk s).safety = .ok ↔ Vm
   have hcd : decide (dl = (sliceOf s 512 dl).length) = true := decide_eq_true hc
   by_cases hlen : 512 + dl ≤ s.length
   case neg =>
-    -- the corner case |s| < 512 and a zero-length descriptor: complete, but the empty text is unsafe
+    -- the corner case |s| < 512 and a zero-length descriptor: complete, but the empty text is never accepted
     have hl := hc
     rw [lemma_sliceOf_length] at hl
     have hnil : sliceOf s 512 dl = [] := lemma_vmdk_sliceOf_nil s 512 dl (by omega)
@@ -413,7 +413,7 @@ theorem vmdk_clean_footer_accepted (s0 : Insp) (h0 : Insp.init .vmdk = some s0) 
 
 example : exVmdkFooter.length = 3072 ∧ (hdrOf exVmdkFooter).gdOffset = Gen.vmdkGdAtEnd := by decide +kernel
 
-/-! ### non-vacuity of the rejection theorems: concrete unsafe images meeting their hypotheses -/
+/-! ### non-vacuity of the rejection theorems: concrete rejected images meeting their hypotheses -/
 
 /-- footer-less sparse image with the given descriptor sector and one-sector descriptor text -/
 def mkVmdk (descSec : Nat) (desc : String) : Bytes :=
